@@ -1,6 +1,9 @@
 package conf
 
 import (
+	"strconv"
+	"strings"
+
 	"code.cloudfoundry.org/bytefmt"
 
 	"github.com/bluenviron/mediamtx/internal/conf/jsonwrapper"
@@ -9,9 +12,29 @@ import (
 // StringSize is a size that is unmarshaled from a string.
 type StringSize uint64
 
+// parseSize parses a size.
+// Sizes expressed in bytes ("1537B") are parsed exactly, since bytefmt.ToBytes
+// goes through a float64, that cannot represent every integer above 2^53.
+func parseSize(in string) (uint64, error) {
+	if num, ok := strings.CutSuffix(strings.ToUpper(strings.TrimSpace(in)), "B"); ok {
+		if v, err := strconv.ParseUint(num, 10, 64); err == nil {
+			return v, nil
+		}
+	}
+
+	return bytefmt.ToBytes(in)
+}
+
 // MarshalJSON implements json.Marshaler.
 func (s StringSize) MarshalJSON() ([]byte, error) {
-	return []byte(`"` + bytefmt.ByteSize(uint64(s)) + `"`), nil
+	// bytefmt.ByteSize rounds to one decimal digit (1537 becomes "1.5K"):
+	// use its output only when it is decoded back into the same size.
+	str := bytefmt.ByteSize(uint64(s))
+	if v, err := parseSize(str); err != nil || v != uint64(s) {
+		str = strconv.FormatUint(uint64(s), 10) + "B"
+	}
+
+	return []byte(`"` + str + `"`), nil
 }
 
 // UnmarshalJSON implements json.Unmarshaler.
@@ -21,7 +44,7 @@ func (s *StringSize) UnmarshalJSON(b []byte) error {
 		return err
 	}
 
-	v, err := bytefmt.ToBytes(in)
+	v, err := parseSize(in)
 	if err != nil {
 		return err
 	}
